@@ -4,6 +4,7 @@ CONSTANTS
   Ufuncs <- AllUfuncs
   Methods <- AllMethods
   DKinds <- AllDKinds
+  OutRK <- G_OutRK
   AsDtypes <- AllAsDtypes
   MaxDepth = 1
   FreeDepth = 1
